@@ -370,6 +370,8 @@ def run_sim_check(spec, args):
         for res in ex.map(resample, chunks):
             for key, r2 in res:
                 r1 = by_key[key]
+                if "hang" in (r1["cls"], r2["cls"]):
+                    continue   # a verdict of the wall-clock watchdog, not of the simulation: decided by the replay of the run alone (see below)
                 if (r1["cls"], r1.get("hash")) != (r2["cls"], r2.get("hash")) and not (r1["cls"] in ("crash", "memory-error") and r2["cls"] in ("crash", "memory-error")):
                     mism.append((key, r1["cls"], r1.get("hash"), r2["cls"], r2.get("hash")))
     if mism:
